@@ -161,6 +161,60 @@ pub fn c17_map_err_body<S: Src>(s: &mut S) {
     }
 }
 
+/// @harness props=C17:Q,C06:T,C20:T n=3 err=BitErr
+/// @shape (t0 t1)? then L(t2) then t3    vs   (t0 t1)? then t2 then t3       [the labelled parser SUCCEEDS and leaves no pending error of its own]
+/// @symbolic t0..t3: u8, as_context: bool
+/// @aims a label on a parser that succeeds must not disturb the error an earlier, abandoned attempt left pending (same position: expectations merged; further ahead: it stays primary)
+pub fn c17_label_success_body<S: Src>(s: &mut S) {
+    let t = [s.u8(), s.u8(), s.u8(), s.u8()];
+    let ctx = s.bool();
+    let inp = Inp::<3>::any(s);
+    let x = inp.get();
+    let p = then(ornot(then(j(t[0]), j(t[1]))), then(lab(j(t[2]), ctx), j(t[3])));
+    let q = then(ornot(then(j(t[0]), j(t[1]))), then(j(t[2]), j(t[3])));
+    let (o1, l1, l2) = differential!(p, q, x);
+    if let (None, Some(a), Some(b)) = (o1, l1, l2) {
+        // the label stands in for the labelled parser's own expectation {t2} where it failed at its first token;
+        // everything else in the expected set must be exactly what the undecorated grammar reports
+        let norm = (a.exp() & !LABEL1) | if a.exp() & LABEL1 != 0 { xbit(t[2]) } else { 0 };
+        check!("C17:label-changes-foreign-expectations", norm == b.exp());
+        let n = x.len();
+        cover!("cover:pending-then-labelled-success", n >= 2 && x[0] == t[0] && x[1] != t[1] && x[0] == t[2] && x[1] != t[3]);
+    }
+}
+
+/// @harness props=C17:Q,C06:T,C20:T n=3 err=BitErr
+/// @shape M(t0 t1) | (t2 t3)   vs undecorated       M = map_err(set marker) / map_err_with_state around a TWO-token parser (symbolic choice)
+/// @symbolic t0..t3: u8, with_state: bool
+/// @aims the mapped error stays at the position where the wrapped parser failed (not at the start of the wrapped parser): same span, same expectations as undecorated
+pub fn c17_map_err_deep_body<S: Src>(s: &mut S) {
+    let t = [s.u8(), s.u8(), s.u8(), s.u8()];
+    let ws = s.bool();
+    let inp = Inp::<3>::any(s);
+    let x = inp.get();
+    let q = or(then(j(t[0]), j(t[1])), then(j(t[2]), j(t[3])));
+    let (o1, l1, l2) = if ws {
+        let p = or(merr_state(then(j(t[0]), j(t[1]))), then(j(t[2]), j(t[3])));
+        differential!(p, q, x)
+    } else {
+        let p = or(merr(then(j(t[0]), j(t[1]))), then(j(t[2]), j(t[3])));
+        differential!(p, q, x)
+    };
+    if let (None, Some(a), Some(b)) = (o1, l1, l2) {
+        check!("C17:map_err-changes-expectations", a.exp() == b.exp());
+        let n = x.len();
+        let a0 = n > 0 && x[0] == t[0];
+        let a1 = n > 1 && x[1] == t[1];
+        let b0 = n > 0 && x[0] == t[2];
+        // the wrapped parser fails at 1 while the other alternative fails at 0: the reported error is the wrapped one's
+        if a0 && !a1 && !b0 {
+            check!("C17:map_err-applied-to-own-failure", a.marker() == 1 && a.start() == 1);
+        }
+        cover!("cover:deep-wrapped-failure", a0 && !a1 && !b0);
+        cover!("cover:both-at-position-1", a0 && !a1 && b0);
+    }
+}
+
 /// @harness props=C17:Q,C20:T n=3 err=BitErr finding=F10
 /// @shape t0? then M(t1?) then t2    vs   t0? then t1? then t2          M = map_err(set marker)
 /// @symbolic t0..t2: u8
@@ -222,5 +276,7 @@ crate::harnesses! {
     c17_label_pending [6] = c17_label_pending_body;
     c17_map_err [6] = c17_map_err_body;
     c17_map_err_success [6] = c17_map_err_success_body;
+    c17_label_success [6] = c17_label_success_body;
+    c17_map_err_deep [6] = c17_map_err_deep_body;
     c17_label_nested [6] = c17_label_nested_body;
 }
